@@ -46,6 +46,9 @@ END FUNCTION
 
 HOST = PRELUDE + '''zx% = 1
 zs$ = "q"
+CONST zg = "bare"
+zs$ = zg + "!"
+IF zg = "bare" THEN zx% = LEN(zg) - 3
 '@main_top
 IF zx% = 1 THEN
   '@main_if
